@@ -1,6 +1,8 @@
 #!/usr/bin/env python3
 """try / throw / catch program trees for C07: from ExcMachine model paths, random, and as generated C source."""
 
+import sys
+sys.setrecursionlimit(20000)
 KIND = {"A": 1, "B": 2, "C": 3}
 
 
@@ -88,6 +90,26 @@ def random_prog(rng, depth=0, maxdepth=6, budget=None, p_throw=0.22):
         elif depth < maxdepth:
             out.append({"t": "C", "body": random_prog(rng, depth + 1, maxdepth, budget, p_throw)})
     return out
+
+
+def deep_prog(rng, depth):
+    """a chain of `depth` try blocks open at the same time (below the runtime's 2048): the innermost body throws; most
+    filters do not match, some handlers re-throw another kind, so the exception climbs through many levels"""
+    e = rng.randint(1, 3)
+    inner = [{"t": "M"}, {"t": "X", "e": e}] if rng.random() < 0.85 else [{"t": "M"}]
+    for lvl in range(depth):
+        r = rng.random()
+        other = [k for k in (1, 2, 3)]
+        if r < 0.6:
+            mask = rng.choice([1, 2, 4, 3, 5, 6])
+            handler = [{"t": "M"}] + ([{"t": "X", "e": rng.choice(other)}] if rng.random() < 0.5 else [])
+        elif r < 0.7:
+            mask, handler = 0, [{"t": "M"}, {"t": "X", "e": rng.choice(other)}]
+        else:
+            mask, handler = rng.choice([1, 2, 4]), []
+        body = [{"t": "M"}] + inner + ([{"t": "M"}] if rng.random() < 0.3 else [])
+        inner = [{"t": "T", "mask": mask, "body": body, "handler": handler}]
+    return [{"t": "T", "mask": 0, "body": inner, "handler": [{"t": "M"}]}] if rng.random() < 0.8 else inner
 
 
 KN = {1: "TypeError", 2: "ValueError", 3: "KeyError"}
